@@ -75,6 +75,9 @@ func (g *Gen) producer(depth int) (*Node, Kind) {
 		}
 		return Cmd("range", Str(fmt.Sprint(n))), KNum
 	case 2:
+		if ms := g.varsOfKind(KMap); len(ms) > 0 && g.F.More && g.chance(40) {
+			return Cmd("keys", Var(g.pick(ms))), KUnord // only `order` and `count` may follow
+		}
 		if vs := g.varsOfKind(KList); len(vs) > 0 {
 			v := g.pick(vs)
 			return Cmd("all", Var(v)), g.lookup(v).elem
@@ -113,7 +116,28 @@ func (g *Gen) filter(depth int, ek Kind) (*Node, Kind) {
 		if ek == KNum || ek == KNStr || ek == KStr {
 			f := Cmd("order")
 			if g.chance(40) {
-				f.Opts = []Opt{{"reverse", Var("true")}}
+				f.Opts = append(f.Opts, Opt{"reverse", Var("true")})
+			}
+			if g.F.More && g.chance(35) {
+				// an explicit comparator
+				var body *Node
+				if ek == KStr {
+					body = Stmt(Cmd("<", CapCmd("count", Var("a")), CapCmd("count", Var("b"))))
+				} else {
+					body = Stmt(Cmd(g.pick([]string{"<", ">", "<="}), Var("a"), Var("b")))
+				}
+				if g.F.ErrRate > 0 && g.chance(3*g.F.ErrRate) {
+					body = Stmt(Cmd("put", Str("x"))) // not a boolean
+				}
+				f.Opts = append(f.Opts, Opt{"less-than", &Node{T: "lam", Params: []string{"a", "b"}, Body: Chunk(body)}})
+			} else if g.F.More && g.chance(25) {
+				var body *Node
+				if ek == KStr {
+					body = Stmt(Cmd("count", Var("x")))
+				} else {
+					body = Stmt(Cmd("-", Var("x")))
+				}
+				f.Opts = append(f.Opts, Opt{"key", &Node{T: "lam", Params: []string{"x"}, Body: Chunk(body)}})
 			}
 			return f, ek
 		}
@@ -168,6 +192,18 @@ func (g *Gen) consumer(depth int, ek Kind) *Node {
 func (g *Gen) pipeline(depth int) *Node {
 	p, ek := g.producer(depth)
 	fs := []*Node{p}
+	if ek == KUnord {
+		// the order of the keys of a map is not specified: sort or count them
+		if g.chance(70) {
+			fs = append(fs, Cmd("order"))
+			if g.chance(50) {
+				fs = append(fs, g.consumer(depth, KStr))
+			}
+		} else {
+			fs = append(fs, Cmd("count"))
+		}
+		return Pipe(fs...)
+	}
 	for n := g.R.Intn(3); n > 0; n-- {
 		f, k := g.filter(depth, ek)
 		fs = append(fs, f)
